@@ -640,7 +640,7 @@ INT_TYPES = {"i128": "I128", "I256": "I256"}
 SMALL = {"u32", "u8", "i32", "usize", "u64"}
 NATTY = {"u32", "u8", "usize", "u64", "u128"}
 BITS = {"u8": 8, "u32": 32, "u64": 64, "usize": 64, "u128": 128}
-OPAQUE = {"Env", "CheckpointType", "Hasher!"}   # parameters of these types are keys / handles: dropped
+OPAQUE = {"Env", "CheckpointType", "Hasher!", "Context"}   # parameters of these types are keys / handles: dropped
 
 
 def as_nat(l, t):
@@ -690,7 +690,7 @@ class Gen:
             return "(" + " × ".join(self.lean_ty(t_) for t_ in ty[6:-1].split(",")) + ")"
         if ty == "Leaf":
             return "Nat"     # a leaf value: an opaque identifier (its hash and index are reads)
-        if ty == "Symbol":
+        if ty in ("Symbol", "Signer"):
             return "Nat"     # a role / function name: an opaque identifier
         if ty in ("Address", "MuxedAddress"):
             return "Nat"     # an account / contract: an opaque identifier (a muxed address: its account)
@@ -911,10 +911,19 @@ class Gen:
         if e[0] == "mcall" and e[2] == "inspect" and len(e[3]) == 1 and self.strip(e[3][0])[0] == "closure":
             inner = self.storage_get(self.strip(e[1]), env)
             cb = self.strip(self.strip(e[3][0])[2])
-            while cb[0] == "block" and not cb[1] and cb[2] is not None:
-                cb = self.strip(cb[2])
+            while cb[0] == "block":
+                if not cb[1] and cb[2] is not None:
+                    cb = self.strip(cb[2])
+                elif len(cb[1]) == 1 and cb[2] is None and cb[1][0][0] == "expr":
+                    cb = self.strip(cb[1][0][1])
+                else:
+                    break
             if inner is not None and cb[0] == "mcall" and cb[2] == "extend_ttl":
                 return inner   # `.inspect(|_| extend_ttl(..))`: TTL bookkeeping only
+        if e[0] == "mcall" and e[2] == "has" and len(e[3]) == 1 and self.is_storage(e[1]) and getattr(self, "store", None):
+            ko = self.key_of(e[3][0], env)
+            if ko is not None and "$st" in env:
+                return (f"(Option.isSome ({env['$st'][0]}.{ko[0]}{''.join(' ' + a for a in ko[1])}))", "bool")
         if e[0] == "mcall" and e[2] in ("is_some", "is_none") and not e[3]:
             l, t = self.pure(e[1], env)
             if t.startswith("Option<"):
@@ -1500,6 +1509,8 @@ class Gen:
                         raise Unsupported("require_auth of " + t)
                     self.uses_reads = True
                     return f"(if (envr.authorized {l} = true) then\n {go(i + 1, env)}\n else\n Comp.panic)"
+                if e[0] == "mcall" and e[2] == "publish" and self.strip(e[1])[0] == "struct":
+                    return go(i + 1, env)   # event emission
                 if e[0] == "call" and e[1][0] == "var" and e[1][1].startswith("emit_") and (self.cur_ns, e[1][1]) not in self.sigs:
                     # event emission: not part of the functional state (events are compared by the correspondence run)
                     return go(i + 1, env)
@@ -1870,6 +1881,11 @@ FILES_MERKLE = [("Merkle", "packages/contract-utils/src/crypto/hashable.rs", ["c
                 ("Merkle", "packages/contract-utils/src/crypto/merkle.rs", ["verify", "verify_with_index"])]
 TYMAPS_MERKLE = {"packages/contract-utils/src/crypto/hashable.rs": {"H": "Bytes32", "S": "Hasher!", "Output": "Bytes32"},
                  "packages/contract-utils/src/crypto/merkle.rs": {"H": "Hasher!"}}
+STORE_ST = {"SimpleThreshold": {"AccountContext": (["Address", "u32"], "u32")}}
+STRUCTS_ST = {"ContextRule": [("id", "u32"), ("signers", "Vec<Signer>")], "SimpleThresholdAccountParams": [("threshold", "u32")]}
+READS_ST = {"SimpleThreshold": {"authorized": "addr2bool"}}
+FILES_ST = [("SimpleThreshold", "packages/accounts/src/policies/simple_threshold.rs",
+             ["get_threshold", "can_enforce", "enforce", "set_threshold", "install", "uninstall", "validate_and_set_threshold"])]
 STORE_AC = {"Access": {"HasRole": (["Address", "Symbol"], "u32"), "Admin": ([], "Address"), "RoleAdmin": (["Symbol"], "Symbol")}}
 FILES_AC = [("Access", "packages/access/src/access_control/storage.rs",
              ["has_role", "get_admin", "get_role_admin", "ensure_if_admin_or_admin_role", "ensure_role"])]
@@ -2383,7 +2399,9 @@ def main():
                 sys.stdout.write(txt)
         sys.exit(rc)
     try:
-        if "--access" in sys.argv:
+        if "--simple-threshold" in sys.argv:
+            txt = translate(repo, FILES_ST, reads=READS_ST, structs=STRUCTS_ST, store=STORE_ST)
+        elif "--access" in sys.argv:
             txt = translate(repo, FILES_AC, reads={"Access": {}}, store=STORE_AC)
         elif "--rwa" in sys.argv:
             txt = translate(repo, FILES_RWA, reads=READS_RWA, store=STORE_RWA, impl_types={"Base": "Rwa", "RWA": "Rwa"})
